@@ -6,7 +6,7 @@
    that following the (crumb-adjusted) schema path through the schema reaches the constraint is decided by the
    path-resolution oracle on the real code and by diffing full error keys (paths, constraint, value) against the model. *)
 From Coq Require Import List ZArith String Bool.
-From Cerb Require Import Values PyOps Errors Tree Facts SpecFacts FactsOk Pool Validate PathProofs Current.
+From Cerb Require Import Values PyOps Errors Tree Facts SpecFacts FactsOk Pool Validate PathProofs LocProofs Current.
 Import ListNotations.
 Open Scope string_scope.
 Open Scope list_scope.
@@ -58,6 +58,17 @@ Theorem C12_children_iff_group :
            "MAX_VALUE"; "UNALLOWED_VALUE"; "UNALLOWED_VALUES"; "FORBIDDEN_VALUE"; "FORBIDDEN_VALUES"; "MISSING_MEMBERS"; "CUSTOM";
            "READONLY_FIELD"] = true.
 Proof. vm_compute. split; reflexivity. Qed.
+
+(* the document path leads to the value: for EVERY validator of a run -- the root and each child validator at any depth
+   of schema and document -- every error in its list sits at the validator's document path extended by one field, and
+   the value it stores is the value the (sub-)document being validated holds under that field, or None (a missing
+   required field, whose path then leads to the mapping that lacks it).  Induction on fuel over the whole model. *)
+Theorem C12_errors_located : forall fuel x errs,
+  validate_ctx current fuel x = Ok errs ->
+  Forall (fun e => exists field, e_dp e = x_dp x ++ [field] /\
+                     ((exists v, In (field, v) (x_doc x) /\ e_value e = v) \/ e_value e = VNone)) errs.
+Proof. exact (validate_errors_located current). Qed.
+Print Assumptions C12_errors_located.
 
 Example C12_example :
   let cfg := {| c_allow_unknown := VBool false; c_require_all := false; c_ignore_none := false; c_purge_unknown := false;
